@@ -41,6 +41,8 @@ class MultiVector:
                 if key not in algebra.canon2bin:
                     target, swaps = algebra._blade2canon(key)
                     value = items.pop(key)
+                    if isinstance(value, str):
+                        value = sympify(value)
                     items[target] = - value if swaps % 2 else value
 
             keys, values = zip(*((blade, items[blade]) for blade in algebra.canon2bin if blade in items))
